@@ -138,14 +138,16 @@ func runC04(c *Ctx) {
 		}
 		// the loop over the upstream predicates
 		var filterCalls []*ssa.Call
-		for _, in := range instrsIn(eval, func(in ssa.Instruction) bool {
+		filterChain := map[*ssa.Call][]ssa.Instruction{}
+		for _, h := range p.deepFind(eval, func(in ssa.Instruction) bool {
 			call, ok := in.(*ssa.Call)
-			if !ok || call.Common().StaticCallee() != nil || call.Common().IsInvoke() {
+			if !ok || !isDynCall(call) {
 				return false
 			}
 			return termOf(call.Common().Value).lastField() == "Filter"
-		}) {
-			filterCalls = append(filterCalls, in.(*ssa.Call))
+		}, 2) {
+			filterCalls = append(filterCalls, h.In.(*ssa.Call))
+			filterChain[h.In.(*ssa.Call)] = h.Chain
 		}
 		c.Floor("O2", "MPT upstream Filter invocations", len(filterCalls), 1)
 		for _, call := range filterCalls {
@@ -182,7 +184,8 @@ func runC04(c *Ctx) {
 			c.Check(!found, "O2", "MPT", funcKey(eval)+": a node is kept only when the upstream filter reports fit", instrPos(call), "fit == true on the way on", "the verdict of an upstream filter can be ignored ("+pathStr(path2)+")")
 			// (3) operands
 			args := call.Common().Args
-			okArgs := len(args) == 2 && termOf(args[0]).lastField() == "Pod" && rootParam(termOf(args[0])) == 1
+			podArg := liftTerm(termOf(args[0]), filterChain[call])
+			okArgs := len(args) == 2 && podArg.lastField() == "Pod" && rootParam(podArg) == 1
 			c.Check(okArgs, "O2", "PROV", funcKey(eval)+": the upstream filter sees the pod under test and the node's scheduler view", instrPos(call), "Filter(task.Pod, k8sNodeInfo)", "the upstream filter is evaluated on other operands")
 		}
 	}
@@ -350,90 +353,70 @@ func runC04(c *Ctx) {
 			c.Check(ok, "O3", "RET", fmt.Sprintf("%s: true path#%d only with no reason collected", funcKey(cn), i), rp.Pos, "len(reasons) == 0", "the node-condition check can pass although a reason was collected")
 		}
 		c.Floor("O3", "RET accepting paths", len(paths), 1)
-		// a reason is appended for Spec.Unschedulable and for Ready != True
-		var sawUnsched, sawNotReady bool
-		for _, in := range instrsIn(cn, func(in ssa.Instruction) bool {
+		// a reason is collected on every path with Spec.Unschedulable set, and in every iteration over a Ready
+		// condition that is not True. Formulated over paths, so that it does not matter whether the tests sit in
+		// this function, in a switch, or in a helper that reports "violated".
+		isAppend := func(in ssa.Instruction) bool {
 			call, ok := in.(*ssa.Call)
 			if !ok {
 				return false
 			}
 			b, isB := call.Common().Value.(*ssa.Builtin)
-			return isB && b.Name() == "append"
-		}) {
-			fs := fx.FactsAt(in)
-			if _, ok := hasFact(fs, func(f Fact) bool { return f.Pol && f.T.lastField() == "Unschedulable" }); ok {
-				sawUnsched = true
-			}
-			_, ready := hasFact(fs, func(f Fact) bool {
-				return f.Pol && f.T.Op == "bin" && f.T.Name == "==" && f.T.Args[0].lastField() == "Type" && strings.Contains(f.T.Args[1].String(), `"Ready"`)
-			})
-			_, notTrue := hasFact(fs, func(f Fact) bool {
-				return f.T.Op == "bin" && f.T.Args[0].lastField() == "Status" && strings.Contains(f.T.Args[1].String(), `"True"`) && ((f.T.Name == "!=" && f.Pol) || (f.T.Name == "==" && !f.Pol))
-			})
-			if ready && notTrue {
-				sawNotReady = true
-			}
+			return isB && b.Name() == "append" && strings.HasSuffix(typeKey(call.Type()), "[]string")
 		}
-		isReasonAppend := func(pred func(Fact) bool) func(ssa.Instruction) bool {
-			return func(in ssa.Instruction) bool {
-				call, ok := in.(*ssa.Call)
-				if !ok {
-					return false
-				}
-				b, isB := call.Common().Value.(*ssa.Builtin)
-				if !isB || b.Name() != "append" {
-					return false
-				}
-				_, has := hasFact(fx.FactsAt(in), pred)
-				return has
-			}
-		}
-		// every way through the function with Spec.Unschedulable set collects a reason
+		has := func(fs FactSet, pred func(Fact) bool) bool { _, ok := fs.find(pred); return ok }
 		isUnsched := func(f Fact) bool { return f.T.lastField() == "Unschedulable" }
-		_, path, found := reachAvoiding([]cfgPos{entryPos(cn)}, isReturn, isReasonAppend(func(f Fact) bool { return f.Pol && isUnsched(f) }), func(from, to *ssa.BasicBlock) bool {
-			return !fx.edgeEstablishes(from, to, func(f Fact) bool { return !f.Pol && isUnsched(f) }) && !fx.edgeEstablishes(from, to, func(f Fact) bool {
-				return factNilTerm(f, true, func(t *Term) bool { return t.Op == "param" })
+		nApp := len(p.deepFind(cn, isAppend, 2))
+		_, path, found := reachAvoiding([]cfgPos{entryPos(cn)}, isReturn, isAppend, func(from, to *ssa.BasicBlock) bool {
+			excused := fx.edgeEstablishesAll(from, to, func(fs FactSet) bool {
+				return has(fs, func(f Fact) bool { return !f.Pol && isUnsched(f) }) ||
+					has(fs, func(f Fact) bool { return factNilTerm(f, true, func(t *Term) bool { return t.Op == "param" }) })
 			})
+			// once past the Unschedulable test (true edge taken and reason appended) the later loop is irrelevant:
+			// the search stops at the append anyway
+			return !excused
 		})
-		c.Check(sawUnsched && !found, "O3", "DOM", funcKey(cn)+": a reason is collected whenever Spec.Unschedulable is set", cn.Pos(), "append on every path with node.Spec.Unschedulable", "an unschedulable (cordoned) node can pass the node-condition check ("+pathStr(path)+")")
-		// every Ready condition that is not True collects a reason
+		c.Check(nApp > 0 && !found, "O3", "DOM", funcKey(cn)+": a reason is collected whenever Spec.Unschedulable is set", cn.Pos(), "append on every path with node.Spec.Unschedulable", "an unschedulable (cordoned) node can pass the node-condition check ("+pathStr(path)+")")
 		isReadyType := func(f Fact) bool {
 			return f.T.Op == "bin" && len(f.T.Args) == 2 && f.T.Args[0].lastField() == "Type" && strings.Contains(f.T.Args[1].String(), `"Ready"`)
+		}
+		isTypeCmp := func(f Fact) bool {
+			return f.T.Op == "bin" && len(f.T.Args) == 2 && f.T.Args[0].lastField() == "Type"
 		}
 		isStatusTrue := func(f Fact) bool {
 			return f.T.Op == "bin" && len(f.T.Args) == 2 && f.T.Args[0].lastField() == "Status" && strings.Contains(f.T.Args[1].String(), `"True"`)
 		}
-		okReady := sawNotReady
+		excusedIteration := func(fs FactSet) bool {
+			// not a Ready condition …
+			if has(fs, func(f Fact) bool { return isReadyType(f) && ((f.T.Name == "==" && !f.Pol) || (f.T.Name == "!=" && f.Pol)) }) {
+				return true
+			}
+			if has(fs, func(f Fact) bool { return isTypeCmp(f) && !isReadyType(f) && f.T.Name == "==" && f.Pol }) {
+				return true
+			}
+			// … or Ready is True
+			return has(fs, func(f Fact) bool { return isStatusTrue(f) && ((f.T.Name == "==" && f.Pol) || (f.T.Name == "!=" && !f.Pol)) })
+		}
+		okReady, nLoops := true, 0
 		var rpath []int
-		for _, in := range instrsIn(cn, isReasonAppend(func(f Fact) bool { return f.Pol && f.T.Name == "==" && isReadyType(f) })) {
-			h := loopHeaderOf(in.Block())
-			if h == nil {
-				okReady = false
+		for _, b := range cn.Blocks {
+			h := loopHeaderOf(b)
+			if h != b {
 				continue
 			}
+			nLoops++
 			var starts []cfgPos
 			for _, s := range loopBodyEntries(h) {
-				starts = append(starts, cfgPos{s, 0})
+				starts = append(starts, cfgPos{B: s, I: 0})
 			}
-			_, pth, fnd := reachAvoiding(starts, func(x ssa.Instruction) bool { return x == h.Instrs[0] || isReturn(x) }, func(x ssa.Instruction) bool { return x == in }, func(from, to *ssa.BasicBlock) bool {
-				// not a Ready condition, or Ready is True
-				notReadyType := fx.edgeEstablishes(from, to, func(f Fact) bool {
-					return isReadyType(f) && ((f.T.Name == "==" && !f.Pol) || (f.T.Name == "!=" && f.Pol))
-				})
-				otherType := fx.edgeEstablishes(from, to, func(f Fact) bool {
-					return f.Pol && f.T.Op == "bin" && f.T.Name == "==" && f.T.Args[0].lastField() == "Type" && !isReadyType(f)
-				})
-				statusTrue := fx.edgeEstablishes(from, to, func(f Fact) bool {
-					return isStatusTrue(f) && ((f.T.Name == "==" && f.Pol) || (f.T.Name == "!=" && !f.Pol))
-				})
-				return !notReadyType && !otherType && !statusTrue
+			_, pth, fnd := reachAvoiding(starts, func(x ssa.Instruction) bool { return x == h.Instrs[0] || isReturn(x) }, isAppend, func(from, to *ssa.BasicBlock) bool {
+				return !fx.edgeEstablishesAll(from, to, excusedIteration)
 			})
 			if fnd {
-				okReady = false
-				rpath = pth
+				okReady, rpath = false, pth
 			}
 		}
-		c.Check(okReady, "O3", "DOM", funcKey(cn)+": a reason is collected for every Ready condition that is not True", cn.Pos(), "append on every path with Type == Ready ∧ Status != True", "a node whose Ready condition is not True (False or Unknown) can pass the node-condition check ("+pathStr(rpath)+")")
+		c.Check(okReady && nLoops > 0, "O3", "DOM", funcKey(cn)+": a reason is collected for every Ready condition that is not True", cn.Pos(), "append in every iteration with Type == Ready ∧ Status != True", "a node whose Ready condition is not True (False or Unknown) can pass the node-condition check ("+pathStr(rpath)+")")
 	}
 
 	// ---- O4: affinity state follows every add and remove
@@ -578,10 +561,12 @@ func runC04(c *Ctx) {
 	if ga := c.Anchor("O6", pkgTopo, "topologyPlugin", "getJobAllocatableDomains"); ga != nil {
 		pinned := p.Func(pkgTopo, "", "getRelevantDomainsWithAllocatedPods")
 		n := 0
-		for _, in := range instrsIn(ga, isCallToFn(pinned)) {
+		for _, h := range p.deepFind(ga, isCallToFn(pinned), 2) {
+			in := h.In
 			n++
-			_, a := hasFact(fx.FactsAt(in), func(f Fact) bool { return f.Pol && isCallNamed(f.T, "hasActiveAllocatedTasks") })
-			_, b := hasFact(fx.FactsAt(in), func(f Fact) bool { return f.Pol && isCallNamed(f.T, "hasTopologyRequiredConstraint") })
+			fs := fx.factsAtDeep(h)
+			_, a := hasFact(fs, func(f Fact) bool { return f.Pol && isCallNamed(f.T, "hasActiveAllocatedTasks") })
+			_, b := hasFact(fs, func(f Fact) bool { return f.Pol && isCallNamed(f.T, "hasTopologyRequiredConstraint") })
 			c.Check(a && b, "O6", "DOM", funcKey(ga)+": pinned domains are computed when the job has active pods and a required level", instrPos(in), "hasActiveAllocatedTasks ∧ hasTopologyRequiredConstraint", "the pinning of active pods' domains is guarded differently")
 		}
 		c.Floor("O6", "DOM pinned-domain computations", n, 1)
